@@ -1240,7 +1240,8 @@ _BASIC_CONVERTERS: t.Dict[type, Converter[t.Any]] = {
     float: ScalarConverter(float, (int, float), 'a float', 'floats', float),
     int: ScalarConverter(int, int, 'an int', 'ints', int),
     bool: ScalarConverter(bool, bool, 'a bool', 'bools', bool),
-    str: ScalarConverter(str, str, 'a string', 'strings', str),
+    # (written as the text itself: subclasses may print differently, as members of ``(str, Enum)`` classes do)
+    str: ScalarConverter(str, str, 'a string', 'strings', lambda v: str.__str__(v) if isinstance(v, str) else str(v)),
     bytes: ScalarConverter(bytes, (bytes, bytearray), 'a bytestring', 'bytestrings'),
     bytearray: ScalarConverter(bytearray, (bytes, bytearray), 'a bytearray', 'bytearrays', bytes),
     type(None): NoneConverter(),
